@@ -7,22 +7,34 @@ import lib
 
 SPEC_THEOREMS = {
     'lfn_valid_spec': 'full: lfn_valid = the VFAT rule (non-empty, no leading space, no trailing space/dot, '
-                      'no control character, none of "*/:<>?\\|)',
-    'invalid_rejected': 'full: not lfn_valid (and not "."/"..") or more than 255 UTF-16 units => Err ValueError, '
-                        'no record produced',
-    'alias_standard': 'full: sfn8/ext3 have lengths 8/3 and only legal 8.3 bytes (SFN_VALID set, "_", "~", digits, '
-                      'space padding); no 0x00/0xE5 lead byte given U+00E5 not in str.upper() output',
-    'pure_83_no_lfn': 'full: names equal to SFN[.EXT] up to all-lower base and/or extension give zero long-name '
-                      'records, attr2 in {0,8,16,24} with the NT meaning, and Fat.Spec.short_name returns the name',
-    'lfn_entries_standard': 'full: count k = ceil((u + [u mod 13 <> 0]) / 13) <= 20, ordinals k|0x40, k-1..1, attr 0x0F, '
-                            'first_cluster 0, checksum = Fat.Spec.checksum(sfn8++ext3), units = utf16 name ++ [0]? ++ 0xFFFF*',
-    'name_roundtrip': 'full: Fat.Spec.decode_dir of the produced records + terminator = exactly one entry with the '
-                      'same name, d_nlfn = k, 0 orphans (names of real code points without NUL)',
-    'exclude_spec': 'full: after the excludes the ranges are exactly [1,MAX) minus the tails read from the directory; '
-                    'the chosen tail is the least free one; ENOSPC iff none is free',
-    'alias_unique': 'guarded (ext <> "" or prefix >= 6 chars): the alias differs case-insensitively from every existing '
-                    'long and short name; alias_unique_refuted: the unguarded statement is false for the code as it is '
-                    '(unanchored .match): short extension-less prefixes get duplicate aliases from the 11th name on',
+                      'no control character, none of "*/:<>?\\|); breaks if the Gen deny-list / guards change',
+    'invalid_rejected': 'full: not "."/".." and not VFAT-valid => create_records = Err ValueError (nothing produced); '
+                        'too_long_rejected / too_long_nothing_produced: more than 255 UTF-16 units (no lone surrogate) '
+                        '=> get_names / prefix_entries / create_records = Err ValueError',
+    'checksum_standard': 'full: lfn_checksum(sfn, ext) = Fat.Spec.checksum (sfn ++ ext)',
+    'alias_standard': 'full (name not "."/".."): sfn8/ext3 have lengths 8/3, every byte is in the SFN_VALID set '
+                      '(which contains "_", "~", digits and the space padding); no 0xE5 in sfn8 when U+00E5 is not in up',
+    'short_only_shows_name': 'full: a name stored short-only gives exactly one record, attr2 in {0,8,16,24}, and '
+                             'Fat.Spec.short_name of it = (the name as Latin-1, SFN[.EXT])',
+    'pure_83_no_lfn': 'full: base 1-8 / ext 0-3 ASCII 8.3 characters, each part all-upper or all-lower, up = ASCII upper '
+                      '=> zero long-name records, short entry = upper-cased padded parts, attr2 in {0,8,16,24}, '
+                      'Fat.Spec.short_name gives back the name',
+    'lfn_entries_standard': 'full (name non-empty, real code points, no lone surrogate, <= 255 units, needs long entries): '
+                            'k = ceil((u + [u mod 13 <> 0]) / 13) records, 1 <= k <= 20, ordinals k+0x40, k-1..1, '
+                            'each 32 bytes, attr 0x0F, first_cluster 0, checksum = Fat.Spec.checksum(sfn8++ext3), units in '
+                            'name order = utf16 name ++ [0]? ++ 0xFFFF*',
+    'name_roundtrip': 'full through join_surrogates (name_ok: no NUL, no surrogate code point, <= U+10FFFF; U+00E5 not in up; '
+                      'entry attr is not 0x0F / volume label): Fat.Spec.decode_dir (records ++ [terminator]) 0 None 0 = '
+                      '([entry with d_name = name, d_nlfn = d_off = k, d_raw = the short record], 0 orphans)',
+    'exclude_spec': 'full: after the excludes, x is in the ranges iff 1 <= x < MAX_SFN_SUFFIX and x was not read from the '
+                    'directory; unique_sfn_least: the alias carries the least free tail; unique_sfn_enospc: an error iff '
+                    'every tail is taken, and it is ENOSPC',
+    'alias_unique': 'full (anchored patterns, after fix ef6bdbc): the alias[.ext] differs under fold1 case folding from every '
+                    'existing long name and 8.3 name; unanchored_reads_wrong_tail: regression Example for the old pattern',
+    'lookup_found / lookup_stable / lookup_new': 'full: the name test finds an entry by upper-cased long name or alias; appending '
+                                                 'an entry never changes what an existing name resolves to',
+    'examples': 'vm_compute: "Shared Prefix name 12.txt" with ten existing tails (alias SHARE~11, 2 records, exact fit, read back), '
+                'an astral name, readme.TXT (short only, attr2 8), invalid names, exclude',
 }
 
 TRUSTED = [
